@@ -341,7 +341,7 @@ theorem pgf_step (G : GCtx) (n : Nat) (hPE : ∀ m, m ≤ n → PE G m) (hPSs : 
   | ok va =>
     obtain ⟨hfr1, mem1, hrun1, hml1⟩ := h1
     simp only []
-    have hsp1 := hsp.world st1 hfr1
+    have hsp1 := hsp.world st1 hfr1 hrun1.inv
     have hrel1 : GRel G A env.scopes env.vm st1.scopes mem1 := by rw [hfr1]; exact hrel.memLe hml1
     have h2 := hPEm A hA b st1 (ip + nI CA.1) (⟨va, none⟩ :: stk) mem1 CA.2 env.scopes env.vm hokb hwb
       (fun x hx => hT x (Or.inr (Or.inr (Or.inl hx)))) (hCB ▸ hplB) hrel1.rel hsp1
@@ -355,7 +355,7 @@ theorem pgf_step (G : GCtx) (n : Nat) (hPE : ∀ m, m ≤ n → PE G m) (hPSs : 
       obtain ⟨hfr2, mem2, hrun2, hml2⟩ := h2
       simp only []
       have hfr02 : st2 = { spec with out := st2.out, heap := st2.heap } := frame_trans hfr1 hfr2
-      have hsp2 := hsp.world st2 hfr02
+      have hsp2 := hsp.world st2 hfr02 (fun hi => hrun2.inv (hrun1.inv hi))
       have hml02 := hml1.trans hml2
       have hrel2 : GRel G A env.scopes env.vm st2.scopes mem2 := by rw [hfr02]; exact hrel.memLe hml02
       cases va <;> try trivial
@@ -378,7 +378,7 @@ theorem pgf_step (G : GCtx) (n : Nat) (hPE : ∀ m, m ≤ n → PE G m) (hPSs : 
       have hiter : Runs G.fr G.code G.lim G.s A.fn A.rest A.mp (ip + nI CA.1 + nI CB.1 + 1 + 1)
           (⟨.range xa xb incl, none⟩ :: stk) mem2 st2.world (ip + nI CA.1 + nI CB.1 + 1 + 1 + 1)
           (⟨.closure (1000000 + idv), none⟩ :: stk) ⟨mem2.cells, ⟨(idv, elems0) :: mem2.it.iters, idv + 1⟩⟩ st2.world := by
-        intro k
+        refine ⟨fun k => ?_, id⟩
         refine ⟨1, ?_⟩
         rw [execHN_one, hidv, helems0]
         exact exec1H_of_next (mkS_intoIter_range G.code G.lim G.s A.fn _ A.rest A.mp k stk mem2.cells st2.world A.c hA.code
@@ -415,7 +415,7 @@ theorem pgf_step (G : GCtx) (n : Nat) (hPE : ∀ m, m ≤ n → PE G m) (hPSs : 
         | zero => intro _ elems s' memH _ _ _ _ _ _ _ _ _; rw [forRun]; trivial
         | succ f ih =>
           intro hf elems s' memH hfrs hpre hcl hitle hidlt hidge hlook hghost hsr
-          have hsp' := hsp.scopes_out s' hfrs
+          have hsp' := hsp.scopes_out s' hfrs hpre.inv
           -- the invariant of the activation at the loop head
           have hrelH : GRel G A env.scopes env.vm s'.scopes memH := hrel.of_scopes hsr
           have g2 : GRel G A fit.2.scopes fit.2.vm ([] :: s'.scopes) memH := by
@@ -440,7 +440,7 @@ theorem pgf_step (G : GCtx) (n : Nat) (hPE : ∀ m, m ≤ n → PE G m) (hPSs : 
             have hadv : Runs G.fr G.code G.lim G.s A.fn A.rest A.mp (A.lab head.1 + 1)
                 (⟨.closure (1000000 + idv), none⟩ :: stk) memH s'.world (A.lab head.1 + 1 + 1)
                 (⟨.null, none⟩ :: ⟨.bool false, none⟩ :: stk) memH s'.world := by
-              intro k
+              refine ⟨fun k => ?_, id⟩
               refine ⟨1, ?_⟩
               rw [execHN_one]
               exact exec1H_of_next (mkS_iterAdvance_nil G.code G.lim G.s A.fn _ A.rest A.mp k stk memH.cells s'.world A.c
@@ -475,7 +475,7 @@ theorem pgf_step (G : GCtx) (n : Nat) (hPE : ∀ m, m ≤ n → PE G m) (hPSs : 
             have hadv : Runs G.fr G.code G.lim G.s A.fn A.rest A.mp (A.lab head.1 + 1)
                 (⟨.closure (1000000 + idv), none⟩ :: stk) memH s'.world (A.lab head.1 + 1 + 1)
                 (⟨x, none⟩ :: ⟨.bool true, none⟩ :: stk) memR s'.world := by
-              intro k
+              refine ⟨fun k => ?_, id⟩
               refine ⟨1, ?_⟩
               rw [execHN_one, hmemR]
               exact exec1H_of_next (mkS_iterAdvance_cons G.code G.lim G.s A.fn _ A.rest A.mp k stk memH.cells s'.world A.c
@@ -540,7 +540,7 @@ theorem pgf_step (G : GCtx) (n : Nat) (hPE : ∀ m, m ≤ n → PE G m) (hPSs : 
             have hfrR : roundSt name x s' = { spec with scopes := (roundSt name x s').scopes, out := (roundSt name x s').out, heap := (roundSt name x s').heap } := by
               rw [roundSt_frame, hfrs]
             have hspR : SpecOK G A'.mp (roundSt name x s') := by
-              rw [hA'def]; exact hsp.scopes_out _ hfrR
+              rw [hA'def]; exact hsp.scopes_out _ hfrR (fun hi => by rw [roundSt_frame]; exact hpre.inv hi)
             have hPS := hPSs g (by omega) A' hA' ((aft.1, upd.1) :: loops) env.scopes 1 stmts fhv.2 (roundSt name x s')
               (ip + nI CA.1 + nI CB.1 + 8) stk memB (by rw [hA'def]; exact hoks)
               (by rw [hA'def]; exact fun y hy => hT y (Or.inr (Or.inr (Or.inr hy))))
